@@ -111,7 +111,7 @@ def gen_seq(rng, files, good, maxops):
     group = {0: 0}      # context -> shared state it belongs to
     owndict = set()     # clones with their own dictionary
     objs = set()
-    ks = list("ORRRRSMPGGBVTXICCFF")
+    ks = list("ORRRRSMPGGBVTXICCFFJJ")
     for _ in range(rng.randint(2, maxops)):
         k = rng.choice(ks)
         c = rng.choice(sorted(alive)) if alive else 0
@@ -154,6 +154,11 @@ def gen_seq(rng, files, good, maxops):
             ops.append("T%d:%d" % (c, rng.randrange(5)))
         elif k == "X":
             ops.append("X%d:%d" % (c, rng.randrange(4)))
+        elif k == "J":
+            # rejected (and a few accepted) attribute updates, often several in a row so that the
+            # attribute is hit with and without a previous value
+            for _ in range(rng.randint(1, 3)):
+                ops.append("J%d:%d" % (c, rng.choice([0, 0, 1, 2, 3, 4, 5, 6, 7])))
         elif k == "I":
             ops.append("I%d" % c)
         elif k == "C":
@@ -164,8 +169,8 @@ def gen_seq(rng, files, good, maxops):
                 alive.add(d)
                 group[d] = group.get(c, c)
                 owndict.discard(d)
-                if fl:
-                    owndict.add(d)
+                if fl or c in owndict:
+                    owndict.add(d)      # a clone of such a clone shares its dictionary
         elif k == "F":
             ops.append("F%d" % c)
             alive.discard(c)
@@ -173,6 +178,49 @@ def gen_seq(rng, files, good, maxops):
             if not any(group.get(x, x) == group.get(c, c) for x in alive):
                 opened.discard(group.get(c, c))
                 group[c] = 100 + len(ops)       # a later N<c> starts a new shared state
+    ops.append("Z%d" % rng.randrange(6))
+    return ops
+
+
+def gen_badpages(rng, bad, good, maxops):
+    """histories on the dump whose compressed pages cannot be decompressed (valid streams of the
+    wrong size, truncated streams; zlib, snappy, zstd), mostly with the read(2) file cache
+    (16 blocks) and a small page cache, so that an entry left pinned by a failing read shows
+    in the reference sum at once and as KDUMP_ERR_BUSY on later reads of good pages"""
+    ops = ["N0"]
+    if rng.random() < 0.75:
+        ops.append("Y0:0")
+    if rng.random() < 0.6:
+        ops.append("P0:%d" % rng.choice([1, 2, 4]))
+    ops.append("O0:0")
+    alive = [0]
+    for _ in range(rng.randint(4, maxops)):
+        c = rng.choice(alive)
+        r = rng.random()
+        if r < 0.5:
+            a = rng.choice(bad)
+            ops.append("R%d:%d:%#x:%d" % (c, rng.choice([1, 1, 0]), a + rng.choice([0, 0, 8, 0xff0]),
+                                          rng.choice([8, 64, 4096])))
+        elif r < 0.6:
+            g = rng.choice(good)
+            ops.append("R%d:1:%#x:%d" % (c, g + 0xff0, rng.choice([64, 4096, 8192])))   # runs into a bad page
+        elif r < 0.8:
+            ops.append("K%d:%#x" % (c, rng.choice(good)))
+        elif r < 0.88 and len(alive) < 3:
+            d = max(alive) + 1
+            ops.append("C%d:%d:%d" % (c, d, rng.choice([0, 1])))
+            alive.append(d)
+        elif r < 0.93:
+            ops.append("J%d:%d" % (c, rng.choice([0, 1, 2, 4, 5])))
+        elif r < 0.97 and len(alive) > 1:
+            ops.append("F%d" % c)
+            alive.remove(c)
+        else:
+            ops.append("S%d:1:%#x" % (c, rng.choice(bad)))
+    # every good page must still be readable at the end
+    for g in rng.sample(good, min(4, len(good))):
+        ops.append("K%d:%#x" % (rng.choice(alive), g))
+    ops.append("Z%d" % rng.randrange(6))
     return ops
 
 
@@ -213,6 +261,7 @@ def check(run):
         with open(p, "wb") as f:
             f.write(data[:len(data) * 2 // 3])
         dumps[name + "-trunc"] = p
+    badpath, badaddrs, goodaddrs = resdumps.bad_pages_diskdump(d)
     p = os.path.join(d, "garbage.dump")
     with open(p, "wb") as f:
         f.write(bytes((i * 37 + 11) & 0xff for i in range(20000)))
@@ -247,6 +296,10 @@ def check(run):
         good = [j for j, f in enumerate(files) if "garbage" not in f]
         ops = gen_seq(run.rng, files, good or [0], 14 if quick else 30)
         seqs.append(("seq %s : %s" % ("|".join(files), " ".join(ops)), files, ops))
+    for i in range(150 if quick else 3000):
+        ops = gen_badpages(run.rng, badaddrs, goodaddrs, 18 if quick else 40)
+        seqs.append(("seq %s : %s" % (badpath, " ".join(ops)), [badpath], ops))
+    run.rng.shuffle(seqs)
     # in shards: a badly broken tree (hangs cost seconds each) is reported after the first shard
     shard = 100 if quick else 1000
     for i in range(0, len(seqs), shard):
@@ -328,7 +381,8 @@ def judge_seqs(run, exe, seqs, out):
     reported = set()
     final = set()
     for (line, files, ops), o in zip(seqs, out):
-        failing = any(op[0] in "T" for op in ops) or any("trunc" in f or "garbage" in f or "lzo" in f for f in files)
+        failing = any(op[0] in "TJ" for op in ops) or \
+            any("trunc" in f or "garbage" in f or "lzo" in f or "ddbad" in f for f in files)
         run.note_case(line, failing or any(op[0] in "CGX" for op in ops))
         for op in ops:
             run.count("op-" + op[0])
@@ -363,10 +417,22 @@ def judge_seqs(run, exe, seqs, out):
         l2 = "seq %s : %s" % ("|".join(files), " ".join(small))
         oo, _ = core.run_impl_lines(exe, run.work, [l2], timeout=120)
         # histories with a feature that is a recorded finding are classified by the feature
-        xclones = {op.split(":")[1] for op in small if op[0] == "C" and op.endswith(":1")}
+        xclones = set()         # contexts that use a clone's own dictionary
+        creates = False         # an attribute-creating call was made through such a dictionary
+        for op in small:
+            if op[0] in "VO" and op[1:].split(":")[0] in xclones:
+                creates = True
+            if op[0] == "C":
+                src, dst, fl = op[1:].split(":")
+                if fl == "1" or src in xclones:
+                    xclones.add(dst)
+                else:
+                    xclones.discard(dst)
+            elif op[0] in "FN":
+                xclones.discard(op[1:].split(":")[0])
         if sum(1 for op in small if op[0] == "O") >= 2:
             sig = "res seq reopen: " + sig[8:]
-        elif any(op[0] in "VO" and op[1:].split(":")[0] in xclones for op in small):
+        elif creates:
             sig = "res seq clone-creates-attrs: " + sig[8:]
         if sig in final:
             continue
@@ -376,6 +442,9 @@ def judge_seqs(run, exe, seqs, out):
             a3 = oo[0][9:].split(",")
             n3 = oomlib.resolve(exe, a3)
             shown = "BAD leak of blocks allocated at " + "+".join(sorted({n3.get(a, a) for a in a3}))
+        ms = re.search(r"site_([0-9a-f]+)", shown)
+        if ms:
+            shown = shown.replace(ms.group(0), "allocated_at_" + oomlib.resolve(exe, [ms.group(1)]).get(ms.group(1), "?"))
         run.violation("impl", "API history breaks C15: %s; history: %s on %s"
                       % (shown, " ".join(small), ",".join(os.path.basename(f) for f in files)),
                       {"engine": "res", "case": l2, "files": files, "ops": small, "implementation": oo[0],
